@@ -477,13 +477,27 @@ int sim_sigemptyset(sigset_t *set)
   return ret;
 }
 
+static void sim_query_handler(int sig) { (void) sig; }
+
 int sim_sigaction(int sig, const struct sigaction *act, struct sigaction *old)
 {
-  (void) old;
   int kind = 0;
-  if (act != NULL) {
-    kind = act->sa_handler == SIG_DFL ? 0 : act->sa_handler == SIG_IGN ? 1 : 2;
+  if (old != NULL) {
+    /* the disposition before the call (a query when act is NULL) */
+    if (sig <= 0 || sig > 64) {
+      if (act == NULL) { errno = EINVAL; return -1; }
+    } else {
+      CB(q, "sim_sigaction_query");
+      int k = Int_val(caml_callback(*q, Val_int(sig)));
+      memset(old, 0, sizeof(*old));
+      old->sa_handler = k == 0 ? SIG_DFL : k == 1 ? SIG_IGN : sim_query_handler;
+    }
   }
+  if (act == NULL) {
+    if (sig <= 0 || sig > 64) { errno = EINVAL; return -1; }
+    return 0;
+  }
+  kind = act->sa_handler == SIG_DFL ? 0 : act->sa_handler == SIG_IGN ? 1 : 2;
   CB(f, "sim_sigaction");
   int ret = Int_val(caml_callback2(*f, Val_int(sig), Val_int(kind)));
   install_errno();
